@@ -11,6 +11,7 @@ static GLOBAL: Ledger = Ledger;
 
 mod arcad;
 mod vecad;
+mod wakerad;
 
 fn main() {
     let args: Vec<String> = std::env::args().collect();
@@ -22,6 +23,7 @@ fn main() {
     match args[1].as_str() {
         "vec" => vecad::main(&args[2..]),
         "arc" => arcad::main(&args[2..]),
+        "waker" => wakerad::main(&args[2..]),
         m => {
             eprintln!("TOOL-ERROR unknown module {}", m);
             std::process::exit(2);
